@@ -194,7 +194,7 @@ def _write_coqproject():
     return changed
 
 
-def coq_make(targets=None, timeout=3000, jobs=None):
+def coq_make(targets=None, timeout=3000, jobs=None, keep_going=False):
     """Full .vo build of the static theories (or of the given .vo targets) under a lock."""
     os.makedirs(BUILD, exist_ok=True)
     os.makedirs(GEN, exist_ok=True)
@@ -207,7 +207,7 @@ def coq_make(targets=None, timeout=3000, jobs=None):
             rc, out = sh(["coq_makefile", "-f", "_CoqProject", "-o", "Makefile"], cwd=COQDIR, timeout=120)
             if rc != 0:
                 return rc, out
-        cmd = ["make", "-j%d" % (jobs or NPROC)]
+        cmd = ["make", "-j%d" % (jobs or NPROC)] + (["-k"] if keep_going else [])
         if targets:
             cmd += [os.path.relpath(os.path.join(THEORIES, t), COQDIR) if not t.startswith("theories/") else t
                     for t in targets]
